@@ -916,3 +916,11 @@ Proof.
   - exact exp_example_col_vanishes.
   - exact lm_exponential_example.
 Qed.
+
+(** ** Tie A: the convergence measure shared by Adam and SGD is the source (regenerated from src/optimize/mod.rs on every run by
+    tools/tiea/optim_helpers.py): `rel_change(new, old)` = |new - old| / min(|new|, |old|), or the absolute change when either value is
+    exactly zero -- the term [converged] of the Adam / SGD models applies to every pair of consecutive iterates. *)
+From Compute Require Import Generated.optim_helpers Proofs.TieA_optim_helpers.
+Theorem C10_model_is_source_rel_change :
+  forall (T : Type) (O : Ops T) (new old : T), src_rel_change O new old = rel_change O new old.
+Proof. exact @tiea_rel_change. Qed.
